@@ -176,8 +176,10 @@ def check(ctx):
     s = b.summarize(g)
     rets = s.returns
     ctx.sites("C17.R1", len(rets), 3, "returns of the per-unit function (two early, one main)")
-    early = [(pc, t, n) for pc, t, n in rets if pc]
-    main = [(pc, t, n) for pc, t, n in rets if not pc]
+    # the error frames are literals that do not read the unit's history; the main return is the one computed from it (which of them sits in
+    # an `if` body, an `else` or after a guard clause is a matter of spelling: the path conditions are the same)
+    main = [r for r in rets if any(x == DF for x in ir.walk(r[1]))]
+    early = [r for r in rets if r not in main]
     ctx.require(len(main) == 1, f"{g.where()}: expected exactly one unconditional return")
     # ---- R1 / R2 -------------------------------------------------------------------------------------
     kinds = {}
